@@ -39,6 +39,15 @@ inductive Via where
   | handed | inner | outer
 deriving Repr, DecidableEq
 
+/-- a RE-ENTRANT control call made by an action on its own scheduler while that scheduler is running it:
+`advance_to(t)`, `advance_by(d)` (`caught`: the action wraps the call in `try/except` and swallows the
+`ArgumentOutOfRangeException`), `start()` -/
+inductive Ctl where
+  | advTo (t : Int) (caught : Bool)
+  | advBy (d : Int) (caught : Bool)
+  | start
+deriving Repr, DecidableEq
+
 inductive Act where
   | done
   | raise (e : Err)
@@ -46,6 +55,7 @@ inductive Act where
   | cancel (id : Nat) (rest : Act)
   | stop (rest : Act)
   | sleep (t : Int) (rest : Act)
+  | ctl (c : Ctl) (rest : Act)
 deriving Repr
 
 /-- number of action-tree nodes -/
@@ -56,6 +66,7 @@ def Act.size : Act → Nat
   | .cancel _ r => r.size
   | .stop r => r.size
   | .sleep _ r => r.size
+  | .ctl _ r => r.size
 
 theorem Act.size_pos (a : Act) : 0 < a.size := by
   induction a <;> simp [Act.size] <;> omega
@@ -135,6 +146,17 @@ def childWrapped (w : Bool) : Via → Bool
   | .inner => false
   | .outer => true
 
+/-- Does the re-entrant call raise out of the action?  As written, `advance_to` first tests
+`if self.now > dt: raise ArgumentOutOfRangeException()`, then `if self.now == dt or self._is_enabled: return`;
+`advance_by(d)` is `advance_to(now + d)`; `start()` begins with `if self._is_enabled: return`.  The scheduler
+is running (enabled) while it runs an action, so the call either raises or returns at once, changing nothing.
+(Not modelled: an action that first calls `stop()` and then, in the same body, `start()`/`advance_to()` —
+the real code would then run a nested loop.) -/
+def ctlRaises (clock : Int) : Ctl → Bool
+  | .advTo t caught => !caught && decide (clock > t)
+  | .advBy d caught => !caught && decide (d < 0)
+  | .start => false
+
 /-- run an action body.  `w`: the running action is a CatchScheduler `wrapped_action`. -/
 def exec (w : Bool) : Act → St → St × Option Err
   | .done, s => (s, none)
@@ -146,6 +168,9 @@ def exec (w : Bool) : Act → St → St × Option Err
   | .sleep t rest, s =>
     if t < 0 then (s, some aoor)       -- `if self.now > dt: raise ArgumentOutOfRangeException()`
     else exec w rest { s with clock := s.clock + t }
+  | .ctl c rest, s =>
+    if ctlRaises s.clock c then (s, some aoor)   -- out of range and not caught by the action
+    else exec w rest s                           -- the guard returns at once: nothing changes
 
 /-- `item.invoke()`; for a wrapped action the `try/except` of `CatchScheduler._wrap`. -/
 def invoke (cfg : Cfg) (x : Item) (s : St) : St × Option Err :=
@@ -285,6 +310,11 @@ theorem exec_nodes (w : Bool) (a : Act) (s : St) :
     split
     · have := rest.size_pos; simp only; omega
     · exact ih { s with clock := s.clock + t }
+  | ctl c rest ih =>
+    simp only [exec, Act.size]
+    split
+    · have := rest.size_pos; simp only; omega
+    · exact ih s
 
 theorem invoke_nodes (cfg : Cfg) (x : Item) (s : St) :
     (invoke cfg x s).1.queue.nodes + 1 ≤ s.queue.nodes + x.body.size := by
